@@ -37,7 +37,10 @@ def suite(cwd):
 
 def main():
     prop, src, name, pkgdir = sys.argv[1:5]
+    phase = sys.argv[5] if len(sys.argv) > 5 else ""  # "", --confirm-only (parallelisable), --check-only (needs /repo)
     tier = "quick"
+    if phase == "--check-only":
+        return check_only(prop, name, tier)
     meta = {"property": prop, "name": name, "source": src, "demo_package_dir": pkgdir, "ran": [], "at": time.strftime("%Y-%m-%d %H:%M:%S")}
     wt = "/tmp/val-" + name
     subprocess.run(["git", "-C", "/repo", "worktree", "remove", "--force", wt], stdout=subprocess.DEVNULL, stderr=subprocess.DEVNULL)
@@ -104,6 +107,25 @@ def main():
     for f in ("patch.diff", "demo_test.go", "README.md"):
         if os.path.exists(os.path.join(src, f)):
             shutil.copy(os.path.join(src, f), os.path.join(dst, f))
+    if phase == "--confirm-only":
+        json.dump(meta, open(os.path.join(dst, "meta.json"), "w"), indent=1)
+        print("[seed] confirmed; check pending")
+        return 0
+    return run_check(prop, name, tier, meta, dst)
+
+
+def check_only(prop, name, tier):
+    dst = os.path.join("/verif/seeded", name)
+    mp = os.path.join(dst, "meta.json")
+    if not os.path.exists(mp):
+        print("[seed] %s was not confirmed" % name); return 1
+    meta = json.load(open(mp))
+    if not meta.get("confirmed"):
+        print("[seed] %s was not confirmed" % name); return 1
+    return run_check(prop, name, tier, meta, dst)
+
+
+def run_check(prop, name, tier, meta, dst):
     # run the check against it
     st = subprocess.run(["git", "-C", "/repo", "status", "--porcelain"], stdout=subprocess.PIPE).stdout.decode().strip()
     if st:
